@@ -26,7 +26,8 @@ for mid in ids:
         row = {}
         todo = [p for p in props if p in claimed]
         if "--same" in args:
-            todo = [p for p in todo if p == mid.split("-")[0]]
+            own = json.load(open(os.path.join(V, "seeded", mid, "meta.json")))["breaks_property"]
+            todo = [p for p in todo if p == own]
         for p in todo:
             t = time.time()
             r = subprocess.run(["python3-vt", os.path.join(V, "check.py"), p],
